@@ -188,8 +188,15 @@ def d2_atomic(ck, accept):
                 ck.check(fresh, rule + '.fresh', mod, s, '_kmedoids_pam_update', u(s),
                          'candidate array is freshly allocated each trip',
                          'candidate array `%s` must be fresh storage, not an alias of the current state' % name)
-    # medoid_inds must be a private copy (so the caller's list is untouched and
-    # a rejected proposal leaves no trace): covered by C01.D5 / C19.D4
+    nm = [x for x in assigns_to(loop, 'new_medoids') if isinstance(x, ast.Assign)]
+    okc = len(nm) == 1 and isinstance(nm[0].value, (ast.Call, ast.Subscript)) and \
+        u(nm[0].value) in ('medoid_coords.copy()', 'list(medoid_coords)',
+                           'copy.copy(medoid_coords)', 'medoid_coords[:]')
+    ck.check(okc, rule + '.fresh', mod, nm[0] if nm else loop, '_kmedoids_pam_update',
+             u(nm[0]) if nm else 'new_medoids', 'candidate centre list is a fresh copy of the current one',
+             'the candidate centre list must be a COPY of medoid_coords: if it aliases the current '
+             'list, `new_medoids[cid] = proposed_center` commits the proposal before the '
+             'accept/reject decision and a rejected proposal stays behind')
 
 
 def d3_members(ck):
@@ -382,7 +389,18 @@ def d6_definite(ck):
         ck.ok(rule, mod, fn, '%s: %d local reads' % (q, n), 'checked')
 
 
+def d7_state_private(ck):
+    """The supplied start state (centre indices, labels, distances) is not
+    written: a rejected proposal leaves no trace and a second run from the
+    same state sees the same state (reproducibility with a fixed seed)."""
+    from ..patterns import check_no_arg_mutation
+    check_no_arg_mutation(ck, 'C09.D7.start-state-unmodified', [
+        (KM, 'kmedoids'), (KM, '_kmedoids_iterations'),
+        (KM, '_kmedoids_pam_update'), (KM, 'KMedoids.fit'), (HY, 'hybrid')])
+
+
 def check(ck):
+    d7_state_private(ck)
     acc = d1_accept(ck)
     d2_atomic(ck, acc)
     d3_members(ck)
